@@ -76,6 +76,12 @@ CHECKS.update({
    note="the relation is between two programs: nothing is scheduled or faulted beyond the file-provider seam (scope note in DESIGN.md); rewrite sites are layer actions and top-level forms."),
 })
 
+CHECKS.update({
+ "C15": dict(cat="exploration", ref="D5 C15", tech="deterministic simulation of live reload on the real Kanata::new + handle_time_ticks (hooks H3/H4) with storage-fault injection on the reloaded file, differential oracles (failed reload vs twin without request; reloaded vs freshly started instance) and a notification channel of bounded capacity",
+   text="Pairs (old configuration, new content) over 1-3 files; the file that lrld / lrld-next / lrld-prev / lrld-num will reload is replaced by a valid configuration or hit by a storage fault (unbalanced, truncated, semantically rejected, empty, missing, directory, not UTF-8); the request arrives while keys are held, tap-holds pending, one-shots active or macros running, optionally twice back-to-back. Failed reload: every attempt's verdict agrees with the parser, no ConfigFileReload is offered, and the whole output trace equals that of a twin configuration whose request key only pushes a message. Successful reload: only applied with nothing down at the OS (or >= 1000 ms after the request), ConfigFileReload(file) then LayerChange(first layer) are offered, nothing stays down, the right file index is used, and from the reload on the output equals that of a freshly started instance of the new file fed with the same subsequent input.",
+   note="the loop thread itself is not run (executor A with hooks H3/H4, see DESIGN.md): races between the TCP thread and the loop are out of reach of this check. Two findings are recorded as known (output already stuck before the request; output left down when the one-second fallback applies); two genuine defects were repaired (held custom actions discarded by the reload; per-action state surviving the reload)."),
+})
+
 NA = {
  "C11": "pure function of a 16-bit code / key name / config (discriminant tables, a transmute, set construction): no schedule, clock, fault or interleaving for a simulator to vary (DESIGN.md D7)",
 }
